@@ -371,6 +371,9 @@ impl Check for SingleCheck {
     fn run_case(&self, tapes: &[Vec<u16>], want_decoded: bool) -> CaseReport {
         let (spec, cfg) = self.decode(tapes);
         let mut st = Tape::new(&tapes[2]);
+        if spec.n() >= 65 {
+            st.enable_tail();
+        }
         let mut r = run_single(&spec, &cfg, Schedule::Tape(&mut st, self.max_actions.max(3 * spec.n() + 20), cfg.abort_after));
         let case = SingleCase {
             spec,
